@@ -434,6 +434,113 @@ def render(items, depth=0):
     return " ".join(out)
 
 
+def _cond_atoms(c):
+    """atoms and truth table of a canon() condition string; None when it is not in that form"""
+    from .accept import _split_top
+    head, sep, bits = c.rpartition(":")
+    if not sep or not bits or set(bits) - set("01"):
+        return None
+    atoms = _split_top(head)
+    if len(bits) != 2 ** len(atoms):
+        return None
+    return atoms, bits
+
+
+def _eval_cond(c, val):
+    p = _cond_atoms(c)
+    if p is None:
+        return val.get("RAW:" + c, False)
+    atoms, bits = p
+    idx = 0
+    for a in atoms:
+        idx = idx * 2 + (1 if val.get(a, False) else 0)
+    return bits[idx] == "1"
+
+
+def _all_atoms(items, out):
+    for it in items or []:
+        k = it[0]
+        if k == "if":
+            p = _cond_atoms(it[1])
+            if p is None:
+                out.add("RAW:" + it[1])
+            else:
+                out.update(p[0])
+            _all_atoms(it[2], out)
+            _all_atoms(it[3], out)
+        elif k in ("for", "xform", "fmtd"):
+            _all_atoms(it[2], out)
+        elif k == "match":
+            for c, x in it[1]:
+                _all_atoms(x, out)
+
+
+def _emit_seq(items, val, out):
+    for it in items or []:
+        k = it[0]
+        if k == "lit":
+            if out and out[-1][0] == "lit":
+                out[-1] = ("lit", out[-1][1] + it[1])
+            else:
+                out.append(("lit", it[1]))
+        elif k == "val":
+            out.append(("val", it[1], it[2] or ""))
+        elif k == "if":
+            _emit_seq(it[2] if _eval_cond(it[1], val) else it[3], val, out)
+        elif k == "for":
+            inner = []
+            _emit_seq(it[2], val, inner)
+            out.append(("for", it[1], tuple(inner)))
+        elif k in ("xform", "fmtd"):
+            inner = []
+            _emit_seq(it[2], val, inner)
+            out.append((k, str(it[1]), tuple(inner)))
+        elif k == "match":
+            out.append(("match", tuple((str(c), json.dumps(x)) for c, x in it[1])))
+        else:
+            out.append(("?", json.dumps(it)[:200]))
+
+
+def semantic_form(t, limit=12):
+    """{assignment of the condition atoms -> emitted piece sequence}: two templates with equal forms write the same
+    text under every combination of their conditions, however the ifs are nested or the literals are split"""
+    atoms = set()
+    _all_atoms(t, atoms)
+    atoms = sorted(atoms)
+    if len(atoms) > limit:
+        return None
+    form = {}
+    import itertools
+    for bits in itertools.product([False, True], repeat=len(atoms)):
+        val = dict(zip(atoms, bits))
+        seq = []
+        _emit_seq(t, val, seq)
+        form["".join("1" if b else "0" for b in bits)] = json.dumps(seq)
+    return atoms, form
+
+
+def same_text(t1, t2):
+    a, b = semantic_form(t1), semantic_form(t2)
+    if a is None or b is None:
+        return False
+    if a[0] == b[0]:
+        return a[1] == b[1]
+    # different atom sets: extend both to the union
+    atoms = set(a[0]) | set(b[0])
+    import itertools
+    atoms = sorted(atoms)
+    if len(atoms) > 12:
+        return False
+    for bits in itertools.product([False, True], repeat=len(atoms)):
+        val = dict(zip(atoms, bits))
+        s1, s2 = [], []
+        _emit_seq(t1, val, s1)
+        _emit_seq(t2, val, s2)
+        if json.dumps(s1) != json.dumps(s2):
+            return False
+    return True
+
+
 def _flat(items, out=None):
     """leaf pieces of a template as comparable strings"""
     out = out if out is not None else []
@@ -498,7 +605,7 @@ def e1(rep, F, flt=None):
         if path not in cur or path not in spec:
             continue
         t, b = cur[path]
-        if json.dumps(t) != json.dumps(spec[path]["t"]):
+        if json.dumps(t) != json.dumps(spec[path]["t"]) and not same_text(t, spec[path]["t"]):
             # pieces that differ; a piece the extractor could not interpret (an unknown item kind, an unresolved
             # local, a helper the reference does not know) makes the comparison undecided, not a violation
             fa, fb = set(_flat(t)), set(_flat(spec[path]["t"]))
